@@ -616,8 +616,8 @@ func configs(th bool) []explore.Config {
 		add("adhoc", "mc", "cs1", "ht", 5)
 		add("nonce", "br", "cs1", "ht", 5)
 		add("nonce", "mc", "cs0", "tree", 5)
-		add("hop", "br", "cs0", "ht", 4)
-		add("hop", "mc", "cs1", "tree", 4)
+		add("hop", "br", "cs0", "ht", 5)
+		add("hop", "mc", "cs1", "tree", 5)
 		add("route", "br", "cs0", "tree", 5)
 		add("route", "mc", "cs0", "ht", 5)
 		return c
